@@ -249,10 +249,8 @@ def all_harnesses(tier):
         if g in ("SO3Mrp", "SE23Mrp"):
             hs.append(FromMatrixMrp(g))
             hs.append(FromMatrixMrp(g, sign=-1))
-            if tier == "thorough":
-                h = FromMatrix(g)
-                h.shards = 12
-                hs.append(h)
+            # the direct (unfactored) from_Matrix composite of the MRP groups was tried in the thorough tier with 12
+            # shards: every shard ran into the 2 h job limit, so it is not claimed; the factored form above is
         else:
             hs.append(FromMatrix(g))
     for g in ("SO3Quat", "SE3Quat", "SE23Quat", "SO3Dcm"):
